@@ -6,7 +6,7 @@ import collections
 from hypothesis import strategies as st
 
 from vlib import dsched, targets
-from vlib.core import Scenario, Violation, Inconclusive, check, crash
+from vlib.core import Scenario, Violation, Inconclusive, check, crash, reset_module_caches
 from props.c04 import setup, schedule_strategy
 
 PROPERTY = 'C13'
@@ -18,7 +18,7 @@ RULE = ('case = (API in {pmap, piter, piter_fn, piter_multiplex, MultiplexIterat
         'values are collected; on early stop / failure a duplicate-free sub-multiset, the consumer sees the failure; afterwards '
         'every submitted task has finished, no virtual thread is blocked and MultiplexIterator has shut its pool down; non-trivial '
         '= parallelism >= 2 (or >= 2 inputs) and >= 1 preemption; distinct = distinct canonical case JSON'
-        '; also: an in-process MultiplexIterator over a thread-fed queue, pools with fewer threads than sources, 257..300 sources, return values of many kinds')
+        '; also: an in-process MultiplexIterator over a thread-fed queue, pools with fewer threads than sources, 257..300 sources, return values of many kinds; scenario two_default_pipelines: two piter() pipelines on default pools, the later one drained first')
 ASSUMPTIONS = [
     'same scheduler trusted base as C04; the shim ThreadPoolExecutor starts a worker per submitted task up to max_workers',
 ]
@@ -38,6 +38,7 @@ def run_case(case):
   api, par, buf, lens, oc = case['api'], case['parallelism'], case['buffer'], case['inputs'], case['outcome']
   what = f'{api}(parallelism={par}, buffer={buf}) inputs={lens} outcome={oc}'
   out, info = [], {}
+  reset_module_caches(iter_utils)
   rets = case.get('rets') or ['str'] * len(lens)
   what += f' return values={rets}'
   poison = oc.get('value') if oc['kind'] == 'fail_fn' else None
@@ -157,6 +158,47 @@ def run_case(case):
           'extra': {'scheduling_points': s.steps, 'preemptions': s.preemptions}}
 
 
+# ------------------------------------------------------------------------------------------------ two pipelines, default pools
+def run_two(case):
+  """Two independent piter() pipelines built without a thread_pool argument (each gets the default one) and drained in the
+  opposite order: the first one's producers sit parked on its full buffer while the second is drained to its end."""
+  from ml_metrics._src.utils import iter_utils  # pylint: disable=g-import-not-at-top
+  what = f'piter(first={case["first"]}) then piter(second={case["second"]}), buffer={case["buffer"]}, the second drained first'
+  out = {'first': [], 'second': []}
+  reset_module_caches(iter_utils)
+
+  def main():
+    q1 = iter_utils.piter(input_iterators=[src(i, n, None, 'ValueError') for i, n in enumerate(case['first'])], buffer_size=case['buffer'])
+    for _ in range(case['settle']):
+      dsched.time_shim.sleep(0)
+    q2 = iter_utils.piter(input_iterators=[src(50 + i, n, None, 'ValueError') for i, n in enumerate(case['second'])], buffer_size=case['buffer'])
+    out['second'] = list(q2)
+    out['first'] = list(q1)
+  try:
+    _, s = dsched.run(main, case['schedule'], max_steps=60000)
+  except dsched.Deadlock as e:
+    raise Violation('independent-pipelines-block-each-other', f'{what}: {e}') from e
+  except dsched.StepBudget as e:
+    raise Inconclusive(str(e)) from e
+  except Exception as e:  # pylint: disable=broad-exception-caught
+    raise crash(e, what) from e
+  for name, base, lens in (('first', 0, case['first']), ('second', 50, case['second'])):
+    want = sorted((base + i) * 10 + k for i, n in enumerate(lens) for k in range(n))
+    check(sorted(out[name]) == want, 'parallel-output-differs-from-sequential', f'{what}: the {name} pipeline gave {sorted(out[name])}, sequential {want}')
+  return {'nontrivial': len(case['first']) >= 8, 'classes': ['two-pipelines', f'first-{min(len(case["first"]), 8)}'],
+          'extra': {'scheduling_points': s.steps, 'preemptions': s.preemptions}}
+
+
+def strat_two(tier):
+  @st.composite
+  def s(draw):
+    # the first pipeline has as many sources as a default executor has threads, or a few more / less
+    n1 = draw(st.sampled_from([2, 3, 8, 8, 9, 12, 33]))
+    return {'first': [draw(st.integers(2, 3)) for _ in range(n1)], 'second': draw(st.lists(st.integers(0, 3), min_size=2, max_size=3)),
+            'buffer': draw(st.integers(1, 2)), 'settle': draw(st.sampled_from([0, 5, 40, 200])), 'schedule': draw(schedule_strategy())}
+  return s()
+
+
 def _chain(e):
   seen = []
   while e is not None and e not in seen:
@@ -207,4 +249,6 @@ def strat(tier):
 SCENARIOS = [
     Scenario('parallel_iteration', run_case, strategy=strat, setup=setup, budget={'quick': 5000, 'thorough': 100000},
              shards={'quick': 12, 'thorough': 16}),
+    Scenario('two_default_pipelines', run_two, strategy=strat_two, setup=setup, budget={'quick': 300, 'thorough': 5000},
+             shards={'quick': 2, 'thorough': 8}),
 ]
